@@ -8,8 +8,9 @@ TInit == BInit /\ l = 1
 TCompile(ev) == ev.e = "Compile" /\ Compile(ev) /\ Report(CompileViol(ev))
 TLink(ev) == ev.e = "Link" /\ UNCHANGED tus /\ Report(LinkViol(ev))
 TPair(ev) == ev.e = "Pair" /\ UNCHANGED tus /\ Report(PairViol(ev))
+TUse(ev) == ev.e = "Use" /\ UNCHANGED tus /\ Report(UseViol(ev))
 TAll(ev) == ev.e = "AllPairs" /\ UNCHANGED tus /\ Report(AllPairsViol(ev.cfg))
-TNext == l <= Len(Tr) /\ l' = l + 1 /\ LET ev == Tr[l] IN TCompile(ev) \/ TLink(ev) \/ TAll(ev) \/ TPair(ev)
+TNext == l <= Len(Tr) /\ l' = l + 1 /\ LET ev == Tr[l] IN TCompile(ev) \/ TLink(ev) \/ TAll(ev) \/ TPair(ev) \/ TUse(ev)
 TSpec == TInit /\ [][TNext]_<<l, tus>>
 Accepted == TLCGet("stats").diameter - 1 = Len(Tr)
 =============================================================================
